@@ -1,49 +1,54 @@
 import Pm.Daemon
 import Pm.Signal
+import Pm.StdioCli
 open Pm Pm.Client Pm.Daemon
 open Pm.Dev2 (Dev Action Stmt Plug Arg ExecCtx PState PResult ActErr RxCall Oracle Env CS getArgs connectDev)
 
 /-- a string of decimal digits, one kernel answer per call -/
 def digits (s : String) : List Nat := s.toList.map fun c => c.toNat - 48
 
-partial def loop (h out : IO.FS.Stream) (w : W) : IO Unit := do
+/-- `io`: the descriptors of the `--stdio` client (`STDIO in out` in the dump), if the daemon runs in that mode -/
+partial def loop (h out : IO.FS.Stream) (w : W) (io : Option (Nat × Nat) := none) : IO Unit := do
   let line ← h.getLine
   if line.isEmpty then return ()
   let toks := line.trimAscii.toString.splitOn " "
   match toks with
-  | ["SPEC", nm, sp] => loop h out { w with specs := w.specs ++ [(parseHex nm, parseHex sp)] }
+  | ["SPEC", nm, sp] => loop h out { w with specs := w.specs ++ [(parseHex nm, parseHex sp)] } io
   | ["DEV", nm, kind] =>
     let d : Dev := { plugs := [], scripts := fun _ => none, timeout := 0, acts := [], toBuf := [], fromBuf := [], xmStr := none,
                      xmOffs := [], xmResult := false, xmUsed := false, args := [], nextUid := 1, shortCircuitDelay := false, isPipe := kind == "1" }
-    loop h out { w with devs := w.devs ++ [(parseHex nm, d)] }
-  | ["NA", n] => loop h out (updLastDev w fun d => { d with naddr := n.toNat! })
-  | ["T", us] => loop h out (updLastDev w fun d => { d with timeout := us.toNat! })
-  | ["PP", us] => loop h out (updLastDev w fun d => { d with pingPeriod := us.toNat! })
+    loop h out { w with devs := w.devs ++ [(parseHex nm, d)] } io
+  | ["NA", n] => loop h out (updLastDev w fun d => { d with naddr := n.toNat! }) io
+  | ["T", us] => loop h out (updLastDev w fun d => { d with timeout := us.toNat! }) io
+  | ["PP", us] => loop h out (updLastDev w fun d => { d with pingPeriod := us.toNat! }) io
   | ["G", nm, nd] =>
     let w := { w with cfg := { w.cfg with nodes := if nd == "null" then w.cfg.nodes else pushHost w.cfg.nodes (toChars (parseHex nd)) } }
-    loop h out (updLastDev w fun d => { d with plugs := d.plugs ++ [{ name := parseHex nm, node := if nd == "null" then none else some (parseHex nd) }] })
+    loop h out (updLastDev w fun d => { d with plugs := d.plugs ++ [{ name := parseHex nm, node := if nd == "null" then none else some (parseHex nd) }] }) io
   | "S" :: idx :: cnt :: rest =>
     let (stmts, _) := parseStmts cnt.toNat! rest
     let i := idx.toNat!
-    loop h out (updLastDev w fun d => let old := d.scripts; { d with scripts := fun k => if k == i then some stmts else old k })
+    loop h out (updLastDev w fun d => let old := d.scripts; { d with scripts := fun k => if k == i then some stmts else old k }) io
   | "AL" :: nm :: hosts =>
-    loop h out { w with cfg := { w.cfg with aliases := w.cfg.aliases ++ [(toChars (parseHex nm), hosts.map fun x => toChars (parseHex x))] } }
-  | ["V", hex] => loop h out { w with cfg := { w.cfg with version := parseHex hex } }
-  | ["X", pat, subj, ans] => loop h out { w with pendingX := w.pendingX ++ [{ pat := pat.toNat!, subject := parseHex subj, answer := parseOffs ans }] }
+    loop h out { w with cfg := { w.cfg with aliases := w.cfg.aliases ++ [(toChars (parseHex nm), hosts.map fun x => toChars (parseHex x))] } } io
+  | ["V", hex] => loop h out { w with cfg := { w.cfg with version := parseHex hex } } io
+  | ["X", pat, subj, ans] => loop h out { w with pendingX := w.pendingX ++ [{ pat := pat.toNat!, subject := parseHex subj, answer := parseOffs ans }] } io
+  | ["STDIO", i, o] => loop h out w (some (i.toNat!, o.toNat!))
   | ["I", now, con, soe] =>
+    let w := match io with | some (i, _) => Pm.Daemon.Stdio.createClient i w | none => w
     let (w, lines) := initialConnect w now.toNat! (digits con) (digits soe)
     for l in lines do out.putStrLn l
     for l in dumpLines w none do out.putStrLn l
-    loop h out w
+    loop h out w io
   | "P" :: now :: acc :: con :: soe :: envs0 =>
     let hup := envs0.find? (·.startsWith "H")
     let envs := envs0.filter (fun x => !x.startsWith "H" && !x.startsWith "W")
     let p : PassIn := { now := now.toNat!, acc := acc.toNat!, con := digits con, soe := digits soe, envs := envs.map parseEnv }
-    let (w, lines) := match hup with
-      | some h => hupPass w (h.drop 1).toNat! p
-      | none => daemonPass w p
+    let (w, lines) := match io, hup with
+      | some (_, o), _ => Pm.Daemon.Stdio.daemonPassIO o w p
+      | none, some h => hupPass w (h.drop 1).toNat! p
+      | none, none => daemonPass w p
     for l in lines do out.putStrLn l
-    loop h out w
+    loop h out w io
   | "Q" :: rest =>
     -- a termination signal arrives while the daemon sleeps in `poll`, together with whatever the rest of the line makes ready
     let p : PassIn := match rest with
@@ -52,8 +57,8 @@ partial def loop (h out : IO.FS.Stream) (w : W) : IO Unit := do
     for l in signalPass w p do out.putStrLn l
     out.putStrLn "O teardown"
     out.putStrLn "."
-    loop h out w
-  | _ => loop h out w
+    loop h out w io
+  | _ => loop h out w io
 
 def main : IO Unit := do
   loop (← IO.getStdin) (← IO.getStdout) { cfg := { plugs := [], has := [], nodes := [], version := [] }, clients := [] }
